@@ -21,6 +21,8 @@ def fmtVal : Val → String
   | .ints l => "L" ++ ",".intercalate (l.map toString)
   | .graph k toks => "G" ++ k ++ ":" ++ "/".intercalate (toks.map fmtStr)
   | .param n => "P" ++ n
+  | .toks _ => "?"
+  | .pos => "?"
   | .opaque _ => "?"
 
 def fmtCall (c : Call) : String :=
